@@ -29,8 +29,8 @@ def scenario(shape, i, j):
     with patched_env(Clock(()), Tape(())):
         starts = []
         searchers = []
-        for idx in (i, j):
-            start, pack, truth, mk = c12.universe(shape, idx)
+        for side, idx in enumerate((i, j)):
+            start, pack, truth, mk = c12.universe(dict(shape, _side=side), idx)
             if not any(truth(n) for n in range(4)):
                 return True  # empty start class: excluded (the finder asserts non-emptiness of every class it classifies)
             starts.append((start, pack, truth))
@@ -55,22 +55,37 @@ def scenario(shape, i, j):
                 want = len(truth(n))
                 if sum(got.values()) != want:
                     raise Bad("returned specification counts %d objects of size %d, brute force %d" % (sum(got.values()), n, want))
-            if shape["universe"] == "reg":
+            if shape["universe"].startswith("reg"):
                 ctx = Ctx()
                 ctx.table, ctx.stats, ctx.start, ctx.pack, ctx.pack_opts, ctx.error, ctx.spec = start.t, "", start, pack, (), None, spec
                 c02.assert_valid(ctx, spec)
         ok = Isomorphism.check(s1, s2)
-        if ok is not True:
-            raise Bad("the two returned specifications are not isomorphic")
+        ref = c12.iso_reference(s1, s2)
+        if ok is not True or not ref:
+            raise Bad("the two returned specifications are not isomorphic (library test: %r, reference: %r)" % (ok, ref))
     return True
 
 
-def _run(f, *a):
+def failure_kind(msg):
+    if "not isomorphic" in msg:
+        return "non-isomorphic"
+    if "find() raised KeyError" in msg:
+        return "KeyError"
+    if "find() raised" in msg:
+        return "raises"
+    return "other"
+
+
+def _run(f, shape, i, j):
     global LAST_FAILURE
     try:
-        return f(*a)
+        return f(shape, i, j)
     except Bad as e:
-        LAST_FAILURE = "%s | pair %r in %r" % (e, a[1:], a[0])
+        env = {"universe": shape["universe"], "finder": shape["finder"], "opt": shape.get("opt", "-"), "i": i, "j": j,
+               "kind": failure_kind(str(e))}
+        if core.known("check_pair", env):
+            return True  # an input listed in known_findings.json (open); reported separately as KNOWN-FINDING
+        LAST_FAILURE = "%s | pair %r in %r" % (e, (i, j), shape)
         return False
 
 
@@ -105,6 +120,13 @@ def groups(tier):
             gs.append({"name": "reg-%s-%s-t%d" % (finder, opt, lo), "fn": "check_pair",
                        "shape": {"universe": "reg", "S": 2, "db": "base", "opt": opt, "finder": finder, "range1": [lo, lo + step], "n2": n2},
                        "cond_timeout": 2400.0, "path_timeout": 120.0, "expect_space": step * n2, "weight": step * n2})
+    # several rules per class (two expansion strategies) and a redundant automaton on the second side: one label of the
+    # first universe matches several labels of the second, and the second search backtracks over partial successes
+    for finder in ("plain", "eqpath"):
+        for lo in range(0, n2, 8):
+            gs.append({"name": "mixed-%s-two-t%d" % (finder, lo), "fn": "check_pair",
+                       "shape": {"universe": "reg-mixed", "S": 2, "db": "base", "opt": "two", "finder": finder, "range1": [lo, lo + 8], "n2": n2},
+                       "cond_timeout": 2400.0, "path_timeout": 120.0, "expect_space": 8 * n2, "weight": 8 * n2 * 3})
     nw = len(c12.WORD_SETS)
     for finder in ("plain", "eqpath"):
         for lo in range(0, nw, 3):
@@ -127,7 +149,8 @@ def meta(tier):
                       ParallelSpecFinder._create_tree, EqPathParallelSpecFinder._search_matching_info,
                       EqPathParallelSpecFinder._eq_path_matches, SpecificationRuleExtractor.__init__],
         "bounds": "all ordered pairs of the 64 two-state REG tables with a non-empty language x {both finder variants} x packs {plain, symmetry, "
-                  "inferral} (5 combinations; thorough 8), and all ordered pairs of 17 pattern sets of the word example x both finders",
+                  "inferral} (5 combinations; thorough 8), all pairs (two-state table, two-state table on a doubled automaton) with two expansion "
+                  "strategies per class x both finders, and all ordered pairs of 17 pattern sets of the word example x both finders",
     })
     m["outside"] = m["outside"] + ["empty start classes (not a well-formed input of the finder: it asserts non-emptiness)",
                                    "packs whose verification strategies verify non-atoms (the finder rejects them by design)"]
